@@ -176,8 +176,17 @@ def replay(spec):
     try:
         r = fn(*a.get("args", []), **a.get("kwargs", {}))
         return {"result": r, "exception": None}
-    except Exception as e:  # the real code raised: that is a reproduction, report it
-        return {"result": None, "exception": f"{type(e).__name__}: {e}",
+    except Exception as e:  # the real code raised: that is a reproduction, report it - unless the harness itself is what broke
+        tb = e.__traceback__
+        last = None
+        while tb is not None:
+            last = tb.tb_frame.f_code.co_filename
+            tb = tb.tb_next
+        here = os.path.dirname(os.path.abspath(__file__))
+        stub_misfit = isinstance(e, (ImportError, NameError)) or (isinstance(e, AttributeError) and str(e).startswith("module ")) \
+            or (isinstance(e, AssertionError) and str(e).startswith("harness"))
+        origin = "harness" if ((last or "").startswith(here) and stub_misfit) else "code"
+        return {"result": None, "exception": f"{type(e).__name__}: {e}", "origin": origin,
                 "traceback": traceback.format_exc()[-1500:]}
 
 
